@@ -347,6 +347,20 @@ class PEP(object):
         """
         wrapper_name = wrapper.lower()
 
+        # Reject invalid options before doing anything
+        # (otherwise they are only noticed after a successful solve, and never if the problem has no finite value).
+        if return_primal_or_dual not in ["dual", "primal"]:
+            raise ValueError("The argument \'return_primal_or_dual\' must be \'dual\' or \`primal\`."
+                             "Got {}".format(return_primal_or_dual))
+        if dimension_reduction_heuristic:
+            valid_heuristic = (dimension_reduction_heuristic == "trace")
+            if isinstance(dimension_reduction_heuristic, str) and dimension_reduction_heuristic.startswith("logdet"):
+                valid_heuristic = dimension_reduction_heuristic[6:].isdigit() and int(dimension_reduction_heuristic[6:]) > 0
+            if not valid_heuristic:
+                raise ValueError("The argument \'dimension_reduction_heuristic\' must be \'trace\'"
+                                 "or \`logdet\` followed by a positive integer."
+                                 "Got {}".format(dimension_reduction_heuristic))
+
         # Check that the solver is installed, if it is not, switch to CVXPY.
         found_python_package = importlib.util.find_spec(wrapper_name)
         if found_python_package is None:
